@@ -280,6 +280,8 @@ func vp8RtCase(x *Ctx, mk func(c *Case) (enable bool, warm int, calls []PayCall)
 				c.O.Tok("PAYLOAD-PANIC")
 				return
 			}
+			// the sender appends its trailer (auth tag, padding) to every packet in place
+			scribbleSpare(frags...)
 			all = append(all, frags)
 		}
 		for _, frags := range all {
